@@ -45,6 +45,15 @@ for _pid, _ref, _txt in [
         tech="explicit-state model checking (stateright BFS) of the real Airplanes::action/prune, one event per transition under a virtual clock, against a reference tracker; every transition executes the implementation",
         text=_txt, ref=_ref, note=E2_NOTE)
 
+CLAIMS["C19"] = dict(cat="fault_enumeration", engine="E3-reader",
+    tech="deviation-bounded exhaustive enumeration of environment schedules (all subsets of read calls preceded by Interrupted, all split sizes, <=3 mixed deviations) of a scripted Read+Seek against the real from_reader, per distinct read/seek pattern; from_reader == from_bytes",
+    text="every distinct read/seek pattern of the decoder under every placement of transient errors (all 2^R subsets in the thorough tier) and every short-read split; purity over all ordered triples", ref="3 C19",
+    note="trusted: the scripted reader obeys the Read/Seek contracts; std build only (std::io read_exact/read_to_end retry semantics)")
+CLAIMS["C20"] = dict(cat="exploration", engine="E1-lattice",
+    tech="exhaustive differential enumeration: one fixed case list (E1 lattice, CPR lattice, all tracker histories to depth 3/4) rendered by the same code compiled against std+serde, std and alloc-only builds of the subject, compared record by record; serde_json + CBOR round trip of every decoded frame and tracker state",
+    text="2.1 M records per configuration compared exactly; every decoded frame of the lattice and every history's tracker state round-tripped through two serde formats", ref="3 C20",
+    note="trusted: rustc/cargo feature resolution (separate cargo invocations per feature set); std-only timestamps excluded; the case list, not all inputs")
+
 NOT_YET = {
 }
 
